@@ -134,6 +134,7 @@ STRENGTHENED = {
     "C16-w7m2": "missed at first; same kind",
     "C19-w7m2": "missed at first; rule table 4 = an EMPTY edge_whitelist whose dict the caller fills in afterwards",
     "C20-w7m1": "missed at first; counts 4300 / 4600 with the default connectivity judged directly",
+    "C10-w7m2": "missed at first; `dump` and `dumps` are also compared when given dill's options (`recurse`, `byref`)",
 }
 _EQ = ("needs graph objects (vertices / law sets) that override `__eq__`/`__hash__` so that distinct objects compare equal; the unchanged "
        "code itself uses == membership throughout, so the identity reading of the properties presupposes default equality (§6, §11.1)")
@@ -145,7 +146,6 @@ MISSED_NOTE = {
     "C03-w7m2": "known gap: needs a LINK filed as a member of a universe (`uni.add_vertex(link)`); universes of the pool hold vertices only",
     "C04-w7m2": "known gap: needs a user link class deriving from an UNKNOWN two-ended class and from DirectedEdge, met after an instance of that unknown class (the find_links twin C09-w7m2 is caught)",
     "C08-w7m1": "out of reach: needs a DFS path within 64 frames of the interpreter's recursion limit (936 deep), where the unchanged code itself is about to raise RecursionError under the harness's own frames",
-    "C10-w7m2": "known gap: needs `dumps(obj, recurse=True)` of a `__main__` function using a `__main__` global, loaded in a fresh interpreter (the checks call dumps with its defaults)",
     "C13-w7m2": "known gap: needs a nested universe whose `laws` nobody has read yet (the adapter registers every universe's law set when it is created)",
     "C18-w7m1": "out of reach: needs a constructor that constructs its own class, which on the unchanged code does not terminate",
     "C07-w6m2": "out of reach of the quick tier: needs a pending DFS stack above 131072 entries (the complete graph on 400 vertices in shuffled order, 80 000 links)",
